@@ -16,7 +16,7 @@ Lemma step_exact_l sch st s :
   exists ok st', impl_step sch st s = (Some ok, st') /\
                  exec_write sch (abs_db st) s = (ok, abs_db st') /\ Inv sch st'.
 Proof.
-  intros W I Hc Hd. destruct s as [t rows|t sets w|t w].
+  intros W I Hc Hd. destruct s as [t rows|t sets w|t w|t c e w]; [| | |cbn [stmt_class] in Hc; discriminate].
   - apply insert_exact_l; try assumption.
     + unfold stmt_defined in Hd. apply andb_true_iff in Hd. destruct Hd as [_ Hd].
       apply andb_true_iff in Hd. tauto.
